@@ -853,7 +853,7 @@ Proof.
   intros Hw Hu He. destruct e as [i|k]; cbn [or_insert_with entry_ok] in *.
   - eapply wp_mono; [apply occ_into_mut_spec; assumption | |]; cbn beta; [|tauto].
     intros j w' [-> Hs]. split; [apply invU_refl; auto | rewrite Hs; exact He].
-  - apply wp_bind. apply wp_frame; [apply frame_call_mk | |].
+  - apply wp_bind. apply wp_frame; [apply frame_on_unwind; [apply frame_unwind_key | apply frame_call_mk] | |].
     + intros v w' Hs.
       eapply wp_mono; [apply vac_insert_U; rewrite Hs; assumption | |]; cbn beta.
       * intros i w'' [Hinv Hlt]. split; [eapply invU_base; eauto | exact Hlt].
@@ -868,7 +868,7 @@ Proof.
   intros Hw Hu He. destruct e as [i|k]; cbn [or_insert_with_key entry_ok] in *.
   - eapply wp_mono; [apply occ_into_mut_spec; assumption | |]; cbn beta; [|tauto].
     intros j w' [-> Hs]. split; [apply invU_refl; auto | rewrite Hs; exact He].
-  - apply wp_bind. apply wp_frame; [apply frame_call_mk | |].
+  - apply wp_bind. apply wp_frame; [apply frame_on_unwind; [apply frame_unwind_key | apply frame_call_mk] | |].
     + intros v w' Hs.
       eapply wp_mono; [apply vac_insert_U; rewrite Hs; assumption | |]; cbn beta.
       * intros i w'' [Hinv Hlt]. split; [eapply invU_base; eauto | exact Hlt].
